@@ -18,6 +18,28 @@ func init() {
 }
 
 // appendParts returns the base slice and the appended element values of an append call.
+// varargElems: the values stored into the array behind a varargs slice.
+func varargElems(v ssa.Value) (elems []ssa.Value) {
+	sl, ok := v.(*ssa.Slice)
+	if !ok {
+		return nil
+	}
+	arr, ok := sl.X.(*ssa.Alloc)
+	if !ok || arr.Referrers() == nil {
+		return nil
+	}
+	for _, r := range *arr.Referrers() {
+		if ia, ok := r.(*ssa.IndexAddr); ok && ia.Referrers() != nil {
+			for _, rr := range *ia.Referrers() {
+				if st, ok := rr.(*ssa.Store); ok && st.Addr == ssa.Value(ia) {
+					elems = append(elems, st.Val)
+				}
+			}
+		}
+	}
+	return elems
+}
+
 func appendParts(call *ssa.Call) (base ssa.Value, elems []ssa.Value) {
 	if CallBuiltin(call) != "append" || len(call.Call.Args) != 2 {
 		return nil, nil
